@@ -23,8 +23,8 @@ EXPLANATION = ('Decides for all inputs that dot/cross/length/lerp/project/reflec
                'vectors are not decided.')
 LEVEL_NOTE = 'Decides the algebraic identity, rounding depth, guard predicates and the arccos accuracy certificate; not conditioning or range boundaries. Trusted: rustc MIR, intrinsic table, rules/spec.py, Higham-style forward error bound.'
 
-CONFIGS_QUICK = ['sse2', 'scalar']
-CONFIGS_THOROUGH = ['sse2', 'sse2-fma', 'scalar', 'coresimd', 'libm', 'neon', 'wasm32']
+CONFIGS_QUICK = ['sse2', 'sse2-fma', 'sse41', 'scalar', 'coresimd', 'libm', 'neon', 'wasm32']
+CONFIGS_THOROUGH = ['sse2', 'sse2-fma', 'sse41', 'scalar', 'coresimd', 'libm', 'neon', 'wasm32']
 FLOAT_TYPES = {'Vec2': 'f32', 'Vec3': 'f32', 'Vec3A': 'f32', 'Vec4': 'f32', 'DVec2': 'f64', 'DVec3': 'f64', 'DVec4': 'f64'}
 OPS = {'dot', 'cross', 'perp_dot', 'length_squared', 'distance_squared', 'element_sum', 'element_product', 'lerp', 'midpoint',
        'project_onto', 'reject_from', 'project_onto_normalized', 'reject_from_normalized', 'reflect', 'refract', 'length', 'length_recip',
